@@ -328,3 +328,133 @@ def run_exists_case(neg, pi):
     except Exception:  # noqa: BLE001
         return False
     return str(o2) == printed and "EXISTS" in printed and ("NOT" in printed) == neg
+
+
+# ---------------------------------------------------------------- comparison expressions over several object types
+TYPES3 = ["a", "c", "e"]
+MIX_SHAPES = ["({0} OR {1} OR {2}) AND {3}", "{0} OR {1} OR {2} OR {3}", "({0} OR {1}) AND ({2} OR {3})", "{0} AND ({1} OR {2} OR {3})",
+              "{0} OR ({1} AND {2}) OR {3}", "({0} OR {1} OR {2} OR {3}) AND {0}", "{0} OR {1} AND {2} OR {3}"]
+
+
+def _mix_tree(shape, A):
+    P, O, N = (lambda x: ("paren", x)), (lambda *k: flat("OR", list(k))), (lambda *k: flat("AND", list(k)))
+    return [lambda: N(P(O(A[0], A[1], A[2])), A[3]), lambda: O(A[0], A[1], A[2], A[3]), lambda: N(P(O(A[0], A[1])), P(O(A[2], A[3]))),
+            lambda: N(A[0], P(O(A[1], A[2], A[3]))), lambda: O(A[0], P(N(A[1], A[2])), A[3]), lambda: N(P(O(A[0], A[1], A[2], A[3])), A[0]),
+            lambda: O(A[0], N(A[1], A[2]), A[3])][shape]()
+
+
+def _root_types(t):
+    """reference: object types that can satisfy a comparison-expression tree; None when some AND has no common type"""
+    if t[0] == "cmp":
+        return {t[1].split(":")[0]}
+    if t[0] == "paren":
+        return _root_types(t[1])
+    sets = [_root_types(k) for k in t[1]]
+    if any(s is None for s in sets):
+        return None
+    if t[0] == "OR":
+        return set().union(*sets)
+    r = set.intersection(*sets)
+    return r or None
+
+
+def mixed_types(shape: int, t0: int, t1: int, t2: int, t3: int) -> bool:
+    """
+    pre: 0 <= shape < 7 and 0 <= t0 < 3 and 0 <= t1 < 3 and 0 <= t2 < 3 and 0 <= t3 < 3
+    post: _
+    """
+    shape, t0, t1, t2, t3 = pick(shape, 7), pick(t0, 3), pick(t1, 3), pick(t2, 3), pick(t3, 3)
+    with Native():
+        ok = run_mixed_case(shape, (t0, t1, t2, t3))
+    V.reached()
+    return ok
+
+
+def run_mixed_case(shape, ts):
+    """every AND whose operands share an object type is satisfiable, so the pattern must be accepted and round trip; a pattern with an AND
+    over disjoint types can never match and the library may refuse it (no claim)"""
+    atoms = [("%s:p%d = %d" % (TYPES3[t], i, i), ("cmp", "%s:p%d" % (TYPES3[t], i), "=", False, str(i))) for i, t in enumerate(ts)]
+    want = _mix_tree(shape, [a[1] for a in atoms])
+    if _root_types(want) is None:
+        return True
+    text = "[%s]" % MIX_SHAPES[shape].format(*[a[0] for a in atoms])
+    return check_text(text, ("obs", want))
+
+
+# ---------------------------------------------------------------- programmatic: path components and reuse of sub-expressions
+PROG_PATHS = [  # (object type, components, printed path) -- the printed path follows the grammar's quoting rule for a step name
+    ("file", ["name"], "file:name"),
+    ("file", [PT.ListObjectPathComponent("sections", 2), "entropy"], "file:sections[2].entropy"),
+    ("file", [PT.ListObjectPathComponent("sections", "*"), "name"], "file:sections[*].name"),
+    ("a", [PT.ListObjectPathComponent("my-list", 2)], "a:'my-list'[2]"),
+    ("a", [PT.BasicObjectPathComponent("x y", False), PT.ListObjectPathComponent("9z", 0)], "a:'x y'.'9z'[0]"),
+    ("email-message", ["additional_header_fields", "X-Received[1]"], "email-message:additional_header_fields.'X-Received'[1]"),
+    ("a", [PT.ReferenceObjectPathComponent("b_ref"), "c"], "a:b_ref.c"),
+    ("a", ["b_ref", "k-1"], "a:b_ref.'k-1'"),
+    ("email-message", None, "email-message:additional_header_fields.'X-Forwarded-For'[0]"),
+]
+PROG_LHS_TEXT = {8: "email-message:additional_header_fields.X-Forwarded-For[0]"}
+
+
+def programmatic_paths(pi: int, neg: bool, wrap: int) -> bool:
+    """
+    pre: 0 <= pi < 9 and 0 <= wrap < 3
+    post: _
+    """
+    pi, neg, wrap = pick(pi, 9), pickb(neg), pick(wrap, 3)
+    with Native():
+        ok = run_prog_path_case(pi, neg, wrap)
+    V.reached()
+    return ok
+
+
+def run_prog_path_case(pi, neg, wrap):
+    typ, comps, printed = PROG_PATHS[pi]
+    lhs = PROG_LHS_TEXT[pi] if comps is None else PT.ObjectPath(typ, comps)
+    a = PT.EqualityComparisonExpression(lhs, PT.IntegerConstant(7), neg)
+    b = PT.EqualityComparisonExpression(PT.ObjectPath(typ, ["q"]), PT.IntegerConstant(3))
+    m = [PT.ObservationExpression(a), PT.ObservationExpression(PT.AndBooleanExpression([a, b])),
+         PT.ObservationExpression(PT.OrBooleanExpression([b, PT.ParentheticalExpression(PT.AndBooleanExpression([b, a]))]))][wrap]
+    text = str(m)
+    A = ("cmp", printed, "=", bool(neg), "7")
+    B = ("cmp", "%s:q" % typ, "=", False, "3")
+    want = ("obs", [A, ("AND", [A, B]), ("OR", [B, ("paren", ("AND", [B, A]))])][wrap])
+    return check_text(text, want)
+
+
+def programmatic_reuse(t0: int, t1: int, t2: int, t3: int, op1: int, op2: int) -> bool:
+    """
+    pre: 0 <= t0 < 3 and 0 <= t1 < 3 and 0 <= t2 < 3 and 0 <= t3 < 3 and 0 <= op1 < 2 and 0 <= op2 < 2
+    post: _
+    """
+    t0, t1, t2, t3, op1, op2 = pick(t0, 3), pick(t1, 3), pick(t2, 3), pick(t3, 3), pick(op1, 2), pick(op2, 2)
+    with Native():
+        ok = run_reuse_case((t0, t1, t2, t3), op1, op2)
+    V.reached()
+    return ok
+
+
+def run_reuse_case(ts, op1, op2):
+    """a model node may be used as operand of several expressions: what the second expression is (text, or refusal) must not depend on the
+    first one having been built, and building never changes how the shared node prints"""
+    BO = [PT.AndBooleanExpression, PT.OrBooleanExpression]
+
+    def atoms():
+        return [PT.EqualityComparisonExpression(PT.ObjectPath(TYPES3[t], ["p%d" % i]), PT.IntegerConstant(i)) for i, t in enumerate(ts)]
+
+    def build(cls, kids):
+        try:
+            return str(cls(kids))
+        except ValueError:
+            return None
+    A = atoms()
+    shared = PT.ParentheticalExpression(PT.OrBooleanExpression([A[0], A[1]]))
+    before = str(shared)
+    build(BO[op1], [shared, A[2]])
+    second = build(BO[op2], [shared, A[3]])
+    second_atom = build(BO[op2], [A[0], A[3]])
+    F = atoms()
+    fresh_shared = PT.ParentheticalExpression(PT.OrBooleanExpression([F[0], F[1]]))
+    fresh = build(BO[op2], [fresh_shared, F[3]])
+    fresh_atom = build(BO[op2], [F[0], F[3]])
+    return second == fresh and second_atom == fresh_atom and str(shared) == before
